@@ -343,6 +343,8 @@ impl<S: Send + 'static> NodeListener<S> {
                     .name(String::from("node-network-thread"))
                     .spawn(move |_| {
                         while handler.is_running() {
+                            #[cfg(message_io_verif)]
+                            crate::verif::trace("sig_wait", 0);
                             if let Some(signal) = signal_receiver.receive_timeout(*SAMPLING_TIMEOUT)
                             {
                                 let mut event_callback =
@@ -364,6 +366,8 @@ impl<S: Send + 'static> NodeListener<S> {
             };
 
             while self.handler.is_running() {
+                #[cfg(message_io_verif)]
+                crate::verif::trace("poll", 0);
                 network_processor.process_poll_event(Some(*SAMPLING_TIMEOUT), |net_event| {
                     let mut event_callback = multiplexed.lock().expect(OTHER_THREAD_ERR);
                     #[cfg(message_io_verif)]
@@ -455,6 +459,8 @@ impl<S: Send + 'static> NodeListener<S> {
                 }
 
                 while handler.is_running() {
+                    #[cfg(message_io_verif)]
+                    crate::verif::trace("poll", 0);
                     network_processor.process_poll_event(Some(*SAMPLING_TIMEOUT), |net_event| {
                         let mut event_callback = multiplexed.lock().expect(OTHER_THREAD_ERR);
                         #[cfg(message_io_verif)]
@@ -479,6 +485,8 @@ impl<S: Send + 'static> NodeListener<S> {
 
             NamespacedThread::spawn("node-signal-thread", move || {
                 while handler.is_running() {
+                    #[cfg(message_io_verif)]
+                    crate::verif::trace("sig_wait", 0);
                     if let Some(signal) = signal_receiver.receive_timeout(*SAMPLING_TIMEOUT) {
                         let mut event_callback = multiplexed.lock().expect(OTHER_THREAD_ERR);
                         #[cfg(message_io_verif)]
